@@ -213,6 +213,22 @@ class SymBackend:
     def assume(self, f):
         core.CTX.assume.append(f)
 
+    def get_draws(self):
+        """sampler log of this path: list of dicts(site, p (list of SC), k, vals)"""
+        return list(self.EXP.draws)
+
+    def nonneg(self, x):
+        """condition `x is real and >= 0` for a scalar"""
+        x = core.SC.lift(x)
+        c = x >= 0
+        if x.im.t:
+            return core.mk_bool(core.f_and(core.lift_bool(c), core.f_cmp(x.im, "==")))
+        return c
+
+    def positive(self, x):
+        x = core.SC.lift(x)
+        return x > 0
+
     # ---- conversions -------------------------------------------------------------
     def np(self, arr):
         if isinstance(arr, self.jnp.ndarray):
@@ -457,6 +473,17 @@ class RealBackend:
 
     def assume(self, f):
         pass
+
+    def get_draws(self):
+        return list(self.draws)
+
+    def nonneg(self, x):
+        z = complex(x)
+        return z.real >= -1e-9 and abs(z.imag) <= 1e-9 and z == z
+
+    def positive(self, x):
+        z = complex(x)
+        return z.real > 1e-12
 
     def np(self, arr):
         return np.asarray(arr, dtype=complex)
